@@ -63,6 +63,19 @@ func c07Deviations() []envDev {
 	add("cose-time-tag0-text", "time", "reject", "cose", "", func(s *envSpec) {
 		s.cSet(envenc.CText(s.timeHdr()), envenc.CTag(0, envenc.CText(s.cont.SigningTime.UTC().Format(time.RFC3339))))
 	})
+	// the same tag 0 with its head written in a longer-than-shortest form (d8 00, d9 0000, da 00000000, db ..): still tag 0
+	for _, w := range []int{1, 2, 4, 8} {
+		w := w
+		add(fmt.Sprintf("cose-time-tag0-text-head-in-%d-bytes", w), "time", "reject", "cose", "", func(s *envSpec) {
+			s.cSet(envenc.CText(s.timeHdr()), envenc.CTagWide(0, w, envenc.CText(s.cont.SigningTime.UTC().Format(time.RFC3339))))
+		})
+		add(fmt.Sprintf("cose-expiry-tag0-text-head-in-%d-bytes", w), "expiry", "reject", "cose", "expiry", func(s *envSpec) {
+			s.cSet(envenc.CText(envenc.HdrExpiry), envenc.CTagWide(0, w, envenc.CText(s.cont.Expiry.UTC().Format(time.RFC3339))))
+		})
+	}
+	add("cose-time-tag1-head-in-1-byte", "time", "recorded", "cose", "", func(s *envSpec) {
+		s.cSet(envenc.CText(s.timeHdr()), envenc.CTagWide(1, 1, envenc.CInt(s.cont.SigningTime.Unix())))
+	})
 	add("cose-time-untagged-int", "time", "reject", "cose", "", func(s *envSpec) { s.cSet(envenc.CText(s.timeHdr()), envenc.CInt(s.cont.SigningTime.Unix())) })
 	add("cose-time-tag2", "time", "reject", "cose", "", func(s *envSpec) { s.cSet(envenc.CText(s.timeHdr()), envenc.CTag(2, envenc.CBytes([]byte{1, 2, 3}))) })
 	add("cose-time-tag1-float", "time", "recorded", "cose", "", func(s *envSpec) {
